@@ -67,7 +67,11 @@ def gen_cases(rng, tier):
         else:
             a = rng.randint(1, 4)
             b = rng.randint(1, min(4, 7 - a))
-            cases.append({"kind": "slate_bt", "sizes": {"A": a, "B": b}, "cohesion": rng.choice(COHESION)})
+            case = {"kind": "slate_bt", "sizes": {"A": a, "B": b}, "cohesion": rng.choice(COHESION)}
+            if rng.random() < 0.4:
+                # zero-support candidates, differently per voter bloc: each bloc's table ranges over ITS non-zero counts
+                case["zero"] = {X: {Y: rng.randint(0, case["sizes"][Y] - 1) for Y in "AB"} for X in "AB"}
+            cases.append(case)
     return cases
 
 
@@ -211,7 +215,8 @@ def run_case(case):
     a, b = case["sizes"]["A"], case["sizes"]["B"]
     coh = case["cohesion"]
     s2c = {"A": [f"a{i}" for i in range(a)], "B": [f"b{i}" for i in range(b)]}
-    pib = {X: {Y: PreferenceInterval({c: 1.0 for c in s2c[Y]}) for Y in "AB"} for X in "AB"}
+    zero = case.get("zero") or {X: {Y: 0 for Y in "AB"} for X in "AB"}
+    pib = {X: {Y: PreferenceInterval({c: (0.0 if i < zero[X][Y] else 1.0) for i, c in enumerate(s2c[Y])}) for Y in "AB"} for X in "AB"}
     with warnings.catch_warnings():
         warnings.simplefilter("ignore")
         g = call_impl(lambda: slate_BradleyTerry(slate_to_candidates=s2c, pref_intervals_by_bloc=pib,
@@ -224,16 +229,17 @@ def run_case(case):
     c = Fraction(coh)
     for own, opp in (("A", "B"), ("B", "A")):
         table = g.ballot_type_pdf[own]
-        types = set(itertools.permutations([own] * case["sizes"][own] + [opp] * case["sizes"][opp]))
+        na, nb = case["sizes"][own] - zero[own][own], case["sizes"][opp] - zero[own][opp]      # the bloc's non-zero counts
+        types = set(itertools.permutations([own] * na + [opp] * nb))
         want = {}
         for t in types:
             succ = sum(t[i + 1:].count(opp) for i, x in enumerate(t) if x == own)
-            want[t] = c ** succ * (1 - c) ** (a * b - succ)
+            want[t] = c ** succ * (1 - c) ** (na * nb - succ)
         z = sum(want.values())
         if z == 0:
             continue
         want = {k: v / z for k, v in want.items()}
-        model.append({"op": 94, "arg": [[[bid["A"], a], [bid["B"], b]], bid[own], bid[opp], c],
+        model.append({"op": 94, "arg": [[[bid[own], na], [bid[opp], nb]] if own == "A" else [[bid[opp], nb], [bid[own], na]], bid[own], bid[opp], c],
                       "expect": S([[[bid[x] for x in k], v] for k, v in want.items()]),
                       "what": "slate-BT ballot-type table: exact values"})
         if set(table.keys()) != set(want.keys()):
